@@ -885,7 +885,7 @@ func vC08CaseCap(k *vKit) int {
 
 func vC08EntryCap(k *vKit) int {
 	if k.thorough() {
-		return 120000000
+		return 60000000
 	}
 	return 20000000
 }
